@@ -82,6 +82,22 @@ impl Debt {
             .is_ok()
     }
 
+    /// Like [`pay`][Debt::pay], but used by the writer that has just replaced the pointer.
+    ///
+    /// Even the *failed* attempt must be `SeqCst` here. The reader publishes its debt with a
+    /// `SeqCst` swap and then re-checks the pointer; the writer swaps the pointer with `SeqCst`
+    /// and then looks at the slot. For at least one of them to notice the other, the look at
+    /// the slot has to take part in the single total order too ‒ a failed compare-exchange with
+    /// `Relaxed` is just a relaxed load and is allowed to return a value from before the
+    /// reader's swap, in which case the debt would stay unpaid and the pointer be released
+    /// while the reader still uses it.
+    #[inline]
+    pub(crate) fn pay_after_swap<T: RefCnt>(&self, ptr: *const T::Base) -> bool {
+        self.0
+            .compare_exchange(ptr as usize, Self::NONE, SeqCst, SeqCst)
+            .is_ok()
+    }
+
     /// Pays all the debts on the given pointer and the storage.
     pub(crate) fn pay_all<T, R>(ptr: *const T::Base, storage_addr: usize, replacement: R)
     where
@@ -106,7 +122,7 @@ impl Debt {
                     // Note: Release is enough even here. That makes sure the increment is
                     // visible to whoever might acquire on this slot and can't leak below this.
                     // And we are the ones doing decrements anyway.
-                    if slot.pay::<T>(ptr) {
+                    if slot.pay_after_swap::<T>(ptr) {
                         #[cfg(arc_swap_verif)]
                         verif_rt::probe(verif_rt::probes::PAYALL_PAID_SLOT, false);
                         // Pre-pay one more, for another future slot
